@@ -34,7 +34,7 @@ Integrator* makeIntegrator(int k, const System& sys) {
 
 struct ForceSpec { int kind; int b1, b2; Vec3 s1, s2; double k, x0, c; int coordBody, coord; };
 
-struct Run { bool ok = false; std::string why; double maxDrift = 0, finalDrift = 0, maxP = 0, maxL = 0, maxIncrease = 0, Escale = 0, Pscale = 0, Lscale = 0, T = 0; int steps = 0; };
+struct Run { bool ok = false; std::string why; double maxDiss = 0, maxDrift = 0, finalDrift = 0, maxP = 0, maxL = 0, maxIncrease = 0, Escale = 0, Pscale = 0, Lscale = 0, T = 0; int steps = 0; };
 
 void property(const pbt::Tape& t, pbt::Ctx& ctx) {
     pbt::Reader g(t[0]);
@@ -43,14 +43,17 @@ void property(const pbt::Tape& t, pbt::Ctx& ctx) {
     const int nUnits = (int)t.size() - 1;
     const int nb = std::max(1, std::min(4, (nUnits + 1) / 2));           // first units: bodies; remaining: force elements
     mbgen::ModelSpec spec = mbgen::decodeModel(t, 1, nb, g, opt);
-    const int variant = g.pick(4);          // 0,1 conservative (gravity+springs); 2 free-floating; 3 dissipative
-    const int integ = g.pick(NumInteg);
+    const int variant = g.pick(5);          // 0,1 conservative (gravity+springs); 2 free-floating; 3 dissipative; 4 dissipation tracked
+    const int integ0_ = g.pick(NumInteg); const int integ = getenv("C11_INTEG") ? atoi(getenv("C11_INTEG")) : integ0_;
     const double acc = std::pow(10.0, -3.0 - 4.0 * g.unit());
     const double T = 0.5 + 1.5 * g.unit();
     Vec3 grav(g.real(-10, 10), g.real(-10, 10), g.real(-10, 10));
     const bool compareTighter = g.chance(1, 4);
     Rng rng{(uint64_t)g.w() * 0x100000001ull + 31337};
-    const bool freeFloat = variant == 2, dissip = variant == 3;
+    const bool freeFloat = variant == 2, dissip = variant == 3, tracked = variant == 4;
+    // variant 4: elements that REPORT the energy they dissipate (LinearBushing with damping, CableSpring with
+    // dissipation): E + sum(dissipated) must be conserved like the energy of a conservative model.
+    const double trkK = g.logreal(2, 60), trkC = g.logreal(0.1, 4), trkSlack = g.uniform(0.1, 0.6); const int trkKind = g.pick(3);   // 0 bushing, 1 cable, 2 both
     if (freeFloat) { spec.bodies[0].type = mbgen::Free; spec.bodies[0].parent = 0; spec.bodies[0].reversed = false; for (int k = 0; k < 7; ++k) spec.bodies[0].q[k] = k == 0 ? 1 : (k < 4 ? 0 : spec.bodies[0].q[k]);
         for (size_t i = 1; i < spec.bodies.size(); ++i) if (spec.bodies[i].parent == 0) spec.bodies[i].parent = 1; }
 
@@ -63,13 +66,15 @@ void property(const pbt::Tape& t, pbt::Ctx& ctx) {
         f.k = r.logreal(0.5, 50); f.x0 = r.uniform(0.2, 1.5); f.c = r.logreal(0.05, 5); f.coordBody = 1 + r.pick(nb); f.coord = r.pick(6);
         fs.push_back(f);
     }
-    if (ctx.wantDesc) { spec.describe(ctx.desc); ctx.desc << "variant=" << (freeFloat ? "free-floating" : dissip ? "dissipative" : "conservative") << " integrator=" << integName(integ) << " accuracy=" << acc << " T=" << T << " gravity=" << grav << " forces=" << fs.size() << "\n";
+    if (ctx.wantDesc) { spec.describe(ctx.desc); ctx.desc << "variant=" << (freeFloat ? "free-floating" : dissip ? "dissipative" : tracked ? "dissipation-tracked" : "conservative") << " integrator=" << integName(integ) << " accuracy=" << acc << " T=" << T << " gravity=" << grav << " forces=" << fs.size() << "\n";
         for (auto& f : fs) ctx.desc << "  force kind " << f.kind << " bodies " << f.b1 << "," << f.b2 << " k=" << f.k << " x0=" << f.x0 << " c=" << f.c << " coord body " << f.coordBody << " coord " << f.coord << "\n"; }
     mbgen::labelModel(ctx, spec);
-    ctx.label(std::string("integ:") + integName(integ)); ctx.label(freeFloat ? "variant:free-floating" : dissip ? "variant:dissipative" : "variant:conservative");
+    ctx.label(std::string("integ:") + integName(integ)); ctx.label(freeFloat ? "variant:free-floating" : dissip ? "variant:dissipative" : tracked ? "variant:dissipation-tracked" : "variant:conservative");
+    if (tracked) ctx.label(trkKind == 0 ? "tracked:bushing" : trkKind == 1 ? "tracked:cablespring" : "tracked:bushing+cablespring");
 
     auto simulate = [&](double accuracy) -> Run {
         Run R; R.T = T;
+        struct Quiet { std::streambuf* old; std::ostringstream sink; Quiet() : old(std::cout.rdbuf()) { std::cout.rdbuf(sink.rdbuf()); } ~Quiet() { std::cout.rdbuf(old); } } quiet;   // CablePath.cpp prints unconditional debug text to cout
         mbgen::Built m(spec);
         if (!freeFloat) Force::UniformGravity(m.forces, m.matter, grav);
         for (auto& f : fs) {
@@ -78,10 +83,20 @@ void property(const pbt::Tape& t, pbt::Ctx& ctx) {
                 if (f.kind == 1) Force::MobilityLinearSpring(m.forces, m.mb[f.coordBody], MobilizerQIndex(f.coord % nq), f.k, f.x0 - 0.8); else Force::MobilityLinearDamper(m.forces, m.mb[f.coordBody], MobilizerUIndex(f.coord % nq), f.c); }
             else Force::GlobalDamper(m.forces, m.matter, f.c * 0.2);
         }
+        std::unique_ptr<CableTrackerSubsystem> cables; Force::LinearBushing bushing; CableSpring cable;
+        if (tracked) {
+            const int last = (int)m.mb.size() - 1;
+            if (trkKind != 1) bushing = Force::LinearBushing(m.forces, m.mb[0], Transform(Vec3(0.1, -0.2, 0.3)), m.mb[last], Transform(Vec3(-0.1, 0.05, 0.2)),
+                                                           Vec6(trkK, 0.7 * trkK, 1.3 * trkK, 2 * trkK, trkK, 1.5 * trkK), Vec6(trkC, trkC, 0.5 * trkC, trkC, 2 * trkC, trkC));
+            if (trkKind != 0) { cables.reset(new CableTrackerSubsystem(m.sys));
+                CablePath path(*cables, m.mb[0], Vec3(0.4, 0.6, -0.2), m.mb[last], Vec3(0.05, -0.1, 0.15));
+                cable = CableSpring(m.forces, path, trkK, trkSlack, trkC); }
+        }
         m.forces.setNumberOfThreads(1);
         m.finish(spec); m.setState(spec);
         State& s = m.state;
         if (s.getNU() == 0) { R.why = "nu=0"; return R; }
+        auto dissipated = [&](const State& c) { double d = 0; if (tracked && trkKind != 1) d += bushing.getDissipatedEnergy(c); if (tracked && trkKind != 0) d += cable.getDissipatedEnergy(c); return d; };
         std::unique_ptr<Integrator> in(makeIntegrator(integ, m.sys));
         if (!in->methodHasErrorControl()) { R.why = "no-error-control"; return R; }
         in->setAccuracy(accuracy); in->setReturnEveryInternalStep(true); in->setFinalTime(T);
@@ -89,14 +104,17 @@ void property(const pbt::Tape& t, pbt::Ctx& ctx) {
             m.sys.realize(s, Stage::Dynamics);
             in->initialize(s);
             const State& s0 = in->getState(); m.sys.realize(s0, Stage::Dynamics);
-            const double E0 = m.sys.calcEnergy(s0), PE0 = m.sys.calcPotentialEnergy(s0);
+            const double E0 = m.sys.calcEnergy(s0) + dissipated(s0), PE0 = m.sys.calcPotentialEnergy(s0);
             SpatialVec P0 = m.matter.calcSystemMomentumAboutGroundOrigin(s0);
             double Eprev = E0, KEmax = m.sys.calcKineticEnergy(s0), dPEmax = 0, Pmax = P0[1].norm(), Lmax = P0[0].norm();
             double mtot = m.matter.calcSystemMass(s0);
             while (true) {
                 Integrator::SuccessfulStepStatus st = in->stepTo(T);
                 const State& c = in->getState(); m.sys.realize(c, Stage::Dynamics);
-                double E = m.sys.calcEnergy(c), KE = m.sys.calcKineticEnergy(c), PE = m.sys.calcPotentialEnergy(c);
+                double E = m.sys.calcEnergy(c) + dissipated(c), KE = m.sys.calcKineticEnergy(c), PE = m.sys.calcPotentialEnergy(c);
+                R.maxDiss = std::max(R.maxDiss, dissipated(c));
+                // LinearBushing is documented singular when its middle Euler angle nears 90 degrees (PE is discontinuous there) and x/z wrap at pi
+                if (tracked && trkKind != 1) { const Vec6& bq = bushing.getQ(c); if (std::abs(bq[1]) > 1.2 || std::abs(bq[0]) > 2.8 || std::abs(bq[2]) > 2.8) { R.why = "bushing-near-euler-singularity"; return R; } }
                 KEmax = std::max(KEmax, KE); dPEmax = std::max(dPEmax, std::abs(PE - PE0));
                 R.maxDrift = std::max(R.maxDrift, std::abs(E - E0)); R.finalDrift = std::abs(E - E0);
                 R.maxIncrease = std::max(R.maxIncrease, E - Eprev); Eprev = E;
@@ -107,7 +125,7 @@ void property(const pbt::Tape& t, pbt::Ctx& ctx) {
                 if (st == Integrator::EndOfSimulation || c.getTime() >= T) break;
                 if (R.steps > 200000) { R.why = "too-many-steps"; return R; }
             }
-            R.Escale = KEmax + dPEmax + 1e-2 * mtot;
+            R.Escale = KEmax + dPEmax + R.maxDiss + 1e-2 * mtot;
             double vscale = std::sqrt(2 * (KEmax + 1e-2 * mtot) / mtot);
             R.Pscale = mtot * vscale + Pmax; R.Lscale = mtot * vscale * 1.0 + Lmax;
             R.ok = true;
@@ -119,15 +137,16 @@ void property(const pbt::Tape& t, pbt::Ctx& ctx) {
     if (!R.ok) { ctx.reject(R.why); return; }
     const double law = std::pow(acc, kExp[integ]) * (T + 0.1);
     static const bool calib = getenv("C11_CALIB") != nullptr;
-    const double C = calib ? 1e300 : kConst[integ];
+    const double C = calib ? (atof(getenv("C11_CALIB")) > 1 ? atof(getenv("C11_CALIB")) : 1e300) : kConst[integ];
     int nuTot = 0; for (auto& b : spec.bodies) nuTot += mbgen::mobNU(b.type);
     bool u0 = spec.zeroU;
     ctx.nontrivial(nuTot >= 3 && !u0 && !fs.empty());
-    if (ctx.wantDesc) ctx.desc << "steps=" << R.steps << " maxEnergyDrift=" << R.maxDrift << " Escale=" << R.Escale << " dP=" << R.maxP << " dL=" << R.maxL << " maxIncrease=" << R.maxIncrease << "\n";
+    if (tracked) { ctx.label(R.maxDiss > 1e-3 * R.Escale ? "tracked:dissipation>0.1%" : "tracked:dissipation-negligible"); }
+    if (ctx.wantDesc) ctx.desc << "dissipated=" << R.maxDiss << " steps=" << R.steps << " maxEnergyDrift=" << R.maxDrift << " Escale=" << R.Escale << " dP=" << R.maxP << " dL=" << R.maxL << " maxIncrease=" << R.maxIncrease << "\n";
     auto bin = [&](const char* what, double ratio) { if (!calib) return; int e = ratio <= 0 ? -9 : (int)std::floor(std::log10(ratio)); char b[96]; snprintf(b, sizeof b, "calib:%s:%s:1e%+03d", what, integName(integ), e); ctx.label(b); };
 
     if (!dissip) {
-        double ratio = R.maxDrift / (R.Escale * law); bin("E", ratio);
+        double ratio = R.maxDrift / (R.Escale * law); bin(tracked ? "Etrk" : "E", ratio);
         if (!(ratio <= C)) { ctx.fail(std::string(integName(integ)) + ": energy drift " + S(R.maxDrift) + " (scale " + S(R.Escale) + ") = " + S(ratio) + " x acc^" + S(kExp[integ]) + "*(T+0.1) exceeds the calibrated constant " + S(C) + " at accuracy " + S(acc)); return; }
     } else {
         double ratio = R.maxIncrease / (R.Escale * law); bin("Einc", ratio);
@@ -148,9 +167,9 @@ void property(const pbt::Tape& t, pbt::Ctx& ctx) {
 pbt::Config config() {
     pbt::Config c; c.prop = "C11"; c.K = mbgen::K; c.minUnits = 2;
     c.quick = {120, 500, 8, 30}; c.thorough = {1500, 6000, 8, 300};
-    c.rule = "rapidcheck tape -> mbgen tree (1..4 bodies; Pin, Slider, Universal, Cylinder, Planar, Ball, Free, Translation, Screw, Ellipsoid, LineOrientation, FreeLine, Weld; quaternion mode) + force units (two-point springs, mobility springs on qdot==u coordinates; dampers in the dissipative variant) + variant {conservative with uniform gravity, free-floating without gravity, dissipative} + integrator in {RK Merson, RK3, RK Feldberg, RK2, Verlet, SemiExplicitEuler2, CPodes} + accuracy 1e-3..1e-7 + horizon 0.5..2, every internal step examined. Non-trivial: >= 3 mobilities, u(0) != 0 and at least one force element; distinct by tape hash.";
-    c.assumptions = {"drift law C_int * Escale * (t+0.1) * acc^(p/(p+1)) with C_int frozen >= 10x above the calibration maximum (DESIGN 10.3)", "Escale = max KE + max |PE-PE0| + 0.01*total mass; integrator exceptions are clean rejections", "force evaluation single-threaded"};
-    c.requiredLabels = {"integ:RungeKuttaMerson", "integ:Verlet", "integ:CPodes", "integ:SemiExplicitEuler2", "variant:free-floating", "variant:dissipative", "variant:conservative"};
+    c.rule = "rapidcheck tape -> mbgen tree (1..4 bodies; Pin, Slider, Universal, Cylinder, Planar, Ball, Free, Translation, Screw, Ellipsoid, LineOrientation, FreeLine, Weld; quaternion mode) + force units (two-point springs, mobility springs on qdot==u coordinates; dampers in the dissipative variant) + variant {conservative with uniform gravity, free-floating without gravity, dissipative, dissipation-tracked: damped LinearBushing and/or CableSpring over a CablePath between the first and last body, judged on energy + sum getDissipatedEnergy} + integrator in {RK Merson, RK3, RK Feldberg, RK2, Verlet, SemiExplicitEuler2, CPodes} + accuracy 1e-3..1e-7 + horizon 0.5..2, every internal step examined. Non-trivial: >= 3 mobilities, u(0) != 0 and at least one force element; distinct by tape hash.";
+    c.assumptions = {"drift law C_int * Escale * (t+0.1) * acc^(p/(p+1)) with C_int frozen >= 10x above the calibration maximum (DESIGN 10.3)", "Escale = max KE + max |PE-PE0| + 0.01*total mass; integrator exceptions are clean rejections", "force evaluation single-threaded", "LinearBushing cases end (rejected) when its Euler angles leave |qy|<=1.2, |qx|,|qz|<=2.8 rad: the element is documented singular near 90 deg of the middle angle"};
+    c.requiredLabels = {"variant:dissipation-tracked", "tracked:cablespring", "integ:RungeKuttaMerson", "integ:Verlet", "integ:CPodes", "integ:SemiExplicitEuler2", "variant:free-floating", "variant:dissipative", "variant:conservative"};
     c.caseTimeoutSecs = 300;
     return c;
 }
